@@ -113,7 +113,8 @@ def _item_val(rng, codec, spec, f, tag, counter):
 def gen_pages(rng, codec, spec, m, cls, oid, npages=None):
     resp = find_message(spec, m["output"])
     f = cls["items"]
-    npages = npages or rng.choice([1, 1, 2, 2, 3, 3, 4, 5])
+    from ..rng import deep
+    npages = npages or rng.choice([1, 2, 3, 4, 5, 6, 8] if deep() else [1, 1, 2, 2, 3, 3, 4, 5])
     pages = []
     counter = [rng.randint(1, 1000) * 1000]
     for i in range(npages):
@@ -188,7 +189,8 @@ def gen_scenarios(spec, rng, n):
         client = rng.choice(["sync", "async", "async"] + (["rest"] if "rest" in tr else []))
         if "grpc" not in tr:
             client = "rest"
-        nact = 1 if client != "async" else rng.choice([1, 2, 2, 3])
+        from ..rng import deep
+        nact = 1 if client != "async" else rng.choice([1, 2, 3, 4, 5] if deep() else [1, 2, 2, 3])
         actors = [{"start": 0.0 if a == 0 else round(rng.choice([0.0, 0.004, 0.02]), 3), "ops": []} for a in range(nact)]
         nops = rng.randint(1, 3) if nact == 1 else nact + rng.randint(0, 1)
         seq = 0
